@@ -45,6 +45,7 @@ type tableCase struct {
 	Flavour    int  `json:"flavour"`
 	Switched   bool `json:"switched"`
 	Swap       bool `json:"swap"`
+	DefRoot    bool `json:"defRoot"`
 }
 
 type routePlan struct {
@@ -165,6 +166,9 @@ var holdBack bool
 var swapLate bool
 var lateAdders = map[*restful.Container]func(){}
 
+// defaultRootDim: WebServices on "/" are built without a Path() call
+var defaultRootDim bool
+
 func buildContainer(t tableCase, router string, order [][2]int, cell **obsCell) (c *restful.Container, addPanic string) {
 	defer func() {
 		if pv := recover(); pv != nil {
@@ -213,7 +217,10 @@ func buildContainer(t tableCase, router string, order [][2]int, cell **obsCell) 
 		ws, ok := added[wi]
 		if !ok {
 			ws = new(restful.WebService)
-			ws.Path(t.Services[wi].Root)
+			if !(defaultRootDim && t.Services[wi].Root == "/") {
+				// (a WebService whose root path is never set has the default root "/")
+				ws.Path(t.Services[wi].Root)
+			}
 			ws.SetDynamicRoutes(dynamicTables)
 			if len(t.Services[wi].WProd) > 0 {
 				ws.Produces(t.Services[wi].WProd...)
@@ -472,9 +479,10 @@ func runRoute(planPath, outPath string, seed int64) {
 		withFilter = ti%2 == 1
 		filterFlavour = 1 + (ti/2)%2
 		switchRouterFirst = (ti/4)%2 == 1
+		defaultRootDim = ti%3 != 0
 		swapDim := ti%2 == 0
 		if t.Fixed {
-			withFilter, filterFlavour, switchRouterFirst, swapDim = t.WithFilter, t.Flavour, t.Switched, t.Swap
+			withFilter, filterFlavour, switchRouterFirst, swapDim, defaultRootDim = t.WithFilter, t.Flavour, t.Switched, t.Swap, t.DefRoot
 		}
 		decoyRoot = ""
 		if p.Decoy {
@@ -494,7 +502,7 @@ func runRoute(planPath, outPath string, seed int64) {
 			svcOrders = append(svcOrders, serviceOrder(o))
 		}
 		tw.emit(map[string]interface{}{"e": "table", "tid": ti + 1, "services": t.Services, "routers": routers, "withFilter": withFilter,
-			"flavour": filterFlavour, "switched": switchRouterFirst, "swap": swapDim, "decoy": decoyRoot, "orders": svcOrders})
+			"flavour": filterFlavour, "switched": switchRouterFirst, "swap": swapDim, "defRoot": defaultRootDim, "decoy": decoyRoot, "orders": svcOrders})
 		// every template of the table was compiled once before while the trailing-slash switch had the other
 		// value (the switch is a run-time package variable; nothing may be remembered across it)
 		restful.TrimRightSlashEnabled = false
